@@ -94,6 +94,27 @@ def m_long(c, binp, tier):
                           binp=binp, workers=8, timeout=3600))
 
 
+def m_iter(c, binp, tier):
+    """the streaming readers (cursor semantics, strict = from_bytes, Locale = identifier reader ; extension reader): laws on
+    the specification, drift accounting on the implementation (MC_Iter.tla)"""
+    runs = [("iter-loc4", dict(Depth=4, Alpha="loc")), ("iter-li3", dict(Depth=3, Alpha="li"))]
+    if tier == "thorough":
+        runs = [("iter-loc5", dict(Depth=5, Alpha="loc")), ("iter-li4", dict(Depth=4, Alpha="li"))]
+    for name, consts in runs:
+        res = run_model("%s-%s" % (c.prop, name), "MC_Iter", consts, ["StrictAgrees", "Maximal", "PrefixIsParse", "Compositional", "EmitCase"],
+                        binp=binp, workers=10, expect_cases="distinct", timeout=7200)
+        c.add_model(res)
+        st = res.get("summary", {}).get("stats", {})
+        for k, v in st.items():
+            if k.startswith("iter_"):
+                c.extra_cov[k] = c.extra_cov.get(k, 0) + v
+    drift = sum(v for k, v in c.extra_cov.items() if k.startswith("iter_drift"))
+    if drift:
+        c.notes.append("streaming readers: %d cases differ from MC_Iter.tla's prediction (no listed property names these entry points)" % drift)
+    if c.extra_cov.get("iter_api_not_built"):
+        c.notes.append("the streaming-reader API did not build; MC_Iter cases were not replayed")
+
+
 def m_impl(c, binp, tier, replay=True):
     """the parser as implemented, step by step: termination (ranking function) and refinement of the abstract
     automaton are model-checked; the exact predicted outcomes are replayed to count behaviour drift (informational)"""
@@ -336,6 +357,7 @@ def C01(tier, seed):
     m_proofs(c, "ImplProofs")
     # "total for every (language, script, region)": the whole universe (panics are caught per row and reported with the triple)
     m_sweep(c, binp, tier, parts=("und", "dir") if tier == "quick" else ("known", "und", "dir"))
+    m_iter(c, binp, tier)          # the streaming readers and the parser:: functions are text-accepting public entry points too
     if tier == "thorough":
         m_impl(c, binp, tier)      # the loop-level progress argument (ranking function) + deep replays
     traces(c, binp, "parse", tier)
@@ -497,6 +519,7 @@ def C13(tier, seed):
     m_dict(c, binp, tier)
     m_long(c, binp, tier)
     m_locale(c, binp, tier, modes=("loc",))
+    m_iter(c, binp, tier)
     return c.finish(rule="every language-identifier case also through Locale (identical id, no extensions, same text, conversions both ways, AsRef); every accept-zone locale case: id = LanguageIdentifier of the text before the first singleton",
                     assumptions=ASSUME_COMMON, exhaustive=True)
 
